@@ -405,6 +405,55 @@ def r7_once_per_tx(ctx):
         r.violation("once/validated=>recorded", "validated covenant hashes are never recorded in the set that is consulted: every input re-executes its covenant", b.where(val[0][0]))
 
 
+def r8_weight_accumulates(ctx):
+    """the weight of a program is the (saturating) sum of the weights of ALL its parts: opcodes_weight keeps weighing while instructions remain, adds
+    every part's weight, moves on to what the part left over, and nothing in the two weighing functions wraps around"""
+    r = ctx.rule("R8", "opcodes_weight: loops while instructions remain; every round adds the part's weight (saturating) and continues with the remainder; no wrapping arithmetic in the weighing functions", positional=False)
+    w = ctx.body("melvm::opcode::opcodes_weight", r)
+    car = ctx.body("melvm::opcode::opcodes_car_weight", r)
+    loops = w.loops()
+    r.check(len(loops) == 1, "loop", "one weighing loop", "%d loops in opcodes_weight" % len(loops))
+    if len(loops) != 1:
+        return
+    h, blocks, latches = loops[0]
+    rets = w.return_blocks()
+    emp = [(bi, e) for bi, e in q.call_exprs(w, "is_empty") if bi in blocks]
+    if len(emp) == 1:
+        f1 = force(w, {emp[0][1]: 0})        # instructions remain
+        r.check(not any(x in f1.reach_from(h) for x in rets), "loop/until-empty", "with instructions remaining the weight is not yet returned",
+                "opcodes_weight can return while instructions remain: the rest of the program is not weighed", w.where(emp[0][0]))
+        f0 = force(w, {emp[0][1]: 1})        # nothing remains
+        r.check(not any(x in f0.reach_from(h) for x in latches), "loop/stops-when-empty", "nothing remaining ends the loop", "the loop goes on with nothing left to weigh", w.where(emp[0][0]))
+    else:
+        r.undecided("loop/until-empty", "loop condition not read (%d is_empty tests)" % len(emp))
+    entry = q.loop_entry(w, h, blocks)
+    cars = [bi for bi, e in q.call_exprs(w, "opcodes_car_weight") if bi in blocks]
+    adds = [(bi, e) for bi, e in q.all_call_exprs(w) if bi in blocks and e[0] == "call" and e[1].split("::")[-1] in ("saturating_add", "checked_add") and "opcodes_car_weight" in sig(e)]
+    if cars and adds:
+        wo = w.reachable(entry, removed=[bi for bi, e in adds])
+        r.check(not any(l in wo for l in latches), "sum/every-part", "every part's weight is added", "a round of the loop can finish without adding the part's weight", w.where(adds[0][0]))
+    elif cars:
+        plain = [t for bi, t in w.iter_terms("assert") if bi in blocks and t["msg"].startswith("Overflow(Add")]
+        if plain:
+            r.undecided("sum/every-part", "the part weights are added with a plain `+` (overflow is C09's business): not read")
+        else:
+            r.violation("sum/every-part", "the loop of opcodes_weight weighs the parts but never adds their weights to the sum", w.where(cars[0]))
+    # the remainder: the loop variable that the condition tests is assigned the .1 of this round's opcodes_car_weight
+    rest_w = [(bi, si) for bi, si, s_ in w.iter_stmts() if bi in blocks and s_["k"] == "assign" and not s_["place"]["p"]
+              and sig(q.novers(w.rec_rvalue(s_["rv"], bi, si))).startswith("opcode::opcodes_car_weight(") and sig(q.novers(w.rec_rvalue(s_["rv"], bi, si))).endswith(").1")
+              and w.locals[s_["place"]["l"]].get("name") not in (None, "new_rest")]
+    if emp and len(emp) == 1:
+        tested = sig(q.novers(emp[0][1][2][0]))
+        moved = "opcodes_car_weight(" in tested and "phi(" in tested
+        r.check(moved, "rest/advances", "the loop continues with what the weighed part left over", "the slice tested by the loop condition (%s) is not replaced by the remainder of each round: the loop never ends" % tested[:120], w.where(emp[0][0]))
+    for b in (w, car):
+        for bi, t in b.calls():
+            nm = mir.callee_name(t)
+            last = nm.split("::")[-1]
+            if nm.startswith("core::num::<impl ") and last.startswith("wrapping_"):
+                r.violation("wrap@%s|%s" % (b.nname.split("::")[-1], last), "%s in %s: a weight past 2^128 wraps around to a small one, and the fee with it" % (last, b.nname.split("::")[-1]), b.where(bi))
+
+
 def shared(ctx):
     """'its weight — the quantity the spender is charged for': the fee is computed from covenant_weight_from_bytes, the bound on the executed steps from the weight of the
     decoded program; C12.T8 decides that the two are one number (whole-program weighing, not a sum over separately decoded pieces)."""
@@ -413,4 +462,4 @@ def shared(ctx):
     core.import_rules(ctx, [c12.t8_one_weight], "X12")
 
 
-RULES = [r1_min_weight, r2_loop_weight, r3_forward_pc, r4_nesting, r5_length_guards, r6_linear_weighing, r7_once_per_tx, shared]
+RULES = [r1_min_weight, r2_loop_weight, r3_forward_pc, r4_nesting, r5_length_guards, r6_linear_weighing, r7_once_per_tx, r8_weight_accumulates, shared]
